@@ -85,6 +85,14 @@ def _char_class(s: str) -> str:
     return "ascii"
 
 
+def valid_case(case: dict) -> bool:
+    if case.get("part") == "b":
+        from . import c20b
+
+        return c20b.valid_case(case)
+    return isinstance(case.get("s"), str) and case.get("fn") in ("class", "module", "method", "enum_str", "enum_int")
+
+
 def evaluate(case: dict) -> list[Violation]:
     global _FUNCS
     if case.get("part") == "b":
